@@ -184,6 +184,8 @@ Apply(o, op) ==
          IF op.k \in DOMAIN o.idx THEN [obj |-> o, ret |-> [v |-> es[o.idx[op.k].rep + 1].v]]
          ELSE [obj |-> APush(o, op.k, op.v), ret |-> [v |-> op.v]]
     [] op.op = "clone" -> [obj |-> o, ret |-> None]
+    \* Clone::clone_from into an object that held op.es before: whatever it held is forgotten
+    [] op.op = "clone_from" -> [obj |-> o, ret |-> None]
 
 \* the documented list semantics of the same operations (independent of idx)
 LApply(es, op) ==
@@ -200,6 +202,7 @@ LApply(es, op) ==
     [] op.op = "set_value" -> IF op.i < Len(es) THEN [es EXCEPT ![op.i + 1].v = op.v] ELSE es
     [] op.op = "get_or_insert" -> IF HasKey(es, op.k) THEN es ELSE LPush(es, op.k, op.v)
     [] op.op = "clone" -> es
+    [] op.op = "clone_from" -> es
 
 \* ----------------------------------------------------------- invariants
 \* C06: the index is exactly the index of the entries
